@@ -230,6 +230,11 @@ mod loader;
 
 pub use loader::path_loader;
 
+/// Verification hooks (only with the `verif_hooks` feature).
+#[cfg(feature = "verif_hooks")]
+#[doc(hidden)]
+pub mod verif_hooks;
+
 #[cfg(feature = "debug")]
 mod debug;
 
